@@ -226,8 +226,60 @@ class Inliner:
             else:
                 changed = True
 
+    @staticmethod
+    def generic_map(fb, gargs):
+        """type-parameter names of a generic helper -> the call's type arguments.  The facts do not
+        list generic parameters by name, so they are taken from the helper's signature and body types
+        in order of first appearance (single capital letters / CamelCase identifiers that are not
+        paths); used only when the counts agree."""
+        import re as _re
+        args = [g for g in (gargs or []) if not g.startswith("'")]
+        if not args:
+            return {}
+        seen = []
+        texts = list(fb.get("inputs") or []) + [fb.get("output") or ""]
+        for blk_ in fb["blocks"]:
+            tt = blk_["term"]
+            if tt["k"] == "call":
+                texts += [tt.get("callee_full") or ""] + list(tt.get("arg_tys") or []) + [tt.get("dest_ty") or ""]
+        for tx in texts:
+            for m in _re.finditer(r"(?<![\w:'])([A-Z][A-Za-z0-9]*)(?![\w:(<])", tx):
+                nm = m.group(1)
+                if nm not in seen and nm not in ("Self",):
+                    seen.append(nm)
+        if len(seen) != len(args):
+            return {}
+        return dict(zip(seen, args))
+
+    @staticmethod
+    def subst_types(x, gm):
+        import re as _re
+        if not gm:
+            return x
+        pat = _re.compile(r"(?<![\w:'])(%s)(?![\w:(])" % "|".join(_re.escape(k) for k in gm))
+        def walk(v):
+            if isinstance(v, list):
+                return [walk(e) for e in v]
+            if isinstance(v, dict):
+                out = {}
+                for k, e in v.items():
+                    if k in ("callee_full", "dest_ty", "ty") and isinstance(e, str):
+                        out[k] = pat.sub(lambda m: gm[m.group(1)], e)
+                    elif k in ("arg_tys", "gargs") and isinstance(e, list):
+                        out[k] = [pat.sub(lambda m: gm[m.group(1)], a) if isinstance(a, str) else a for a in e]
+                    elif k in ("span", "fn_span"):
+                        out[k] = e
+                    else:
+                        out[k] = walk(e)
+                return out
+            return v
+        return walk(x)
+
     def splice_sync(self, body, blk, fb, callee):
         t = blk["term"]
+        gm = self.generic_map(fb, t.get("gargs"))
+        if gm:
+            fb = dict(fb, blocks=self.subst_types(fb["blocks"], gm), locals=self.subst_types(fb["locals"], gm))
         if len(fb["blocks"]) > MAX_CALLEE_BLOCKS or fb.get("is_coroutine"):
             self.refused.append((body["name"], callee, "too large / coroutine"))
             return False
@@ -378,6 +430,8 @@ ADAPTORS = {
     "std::option::Option::<T>::ok_or_else": "opt_ok_or_else",
     "std::option::Option::<T>::filter": "opt_filter",
     "std::option::Option::<T>::take_if": "opt_take_if",
+    "std::option::Option::<std::result::Result<T, E>>::transpose": "opt_transpose",
+    "std::option::Option::<std::option::Option<T>>::flatten": "opt_flatten",
     "core::bool::<impl bool>::then": "bool_then",
     "std::bool::<impl bool>::then": "bool_then",
     "core::bool::<impl bool>::then_some": "bool_then_some",
@@ -762,6 +816,35 @@ class Desugar:
     def d_bool_then_some(self, body, blk, t, marks):
         """b.then_some(v): if b { Some(v) } else { None }  (v is evaluated before the call either way)"""
         self._bool_two_way(body, blk, t, lambda done: done(_agg(OPT, "Some", [t["args"][1]])))
+
+    def d_opt_flatten(self, body, blk, t, marks):
+        """Option<Option<T>>::flatten: Some(x) => x, None => None"""
+        self._two_way(body, blk, t, OPT,
+                      lambda X, done: done(_agg(OPT, "None", [])),
+                      lambda X, done: done({"k": "use", "op": _payload(X, "Some")}))
+
+    def d_opt_transpose(self, body, blk, t, marks):
+        """Option<Result<T, E>>::transpose: None => Ok(None), Some(Ok(x)) => Ok(Some(x)), Some(Err(e)) => Err(e)"""
+        span, chain = t["span"], blk.get("inl", ())
+
+        def some_arm(X, done):
+            Y = self.new_local(body, "std::result::Result<?, ?>")
+            # Ok(x): dest = Ok(Some(x))
+            inner = self.new_local(body, "std::option::Option<?>")
+            okb = self.new_block(body, [self.st(inner, _agg(OPT, "Some", [_payload(Y, "Ok")]), span)], None, chain)
+            fin = done(_agg(RES, "Ok", [_mv(inner)]))
+            body["blocks"][okb]["term"] = self.goto(fin, span)
+            errb = done(_agg(RES, "Err", [_payload(Y, "Err")]))
+            stmts, term = self.switch2(body, Y, okb, errb, span, pre=[self.use(Y, _payload(X, "Some"), span)])
+            return self.new_block(body, stmts, term, chain)
+
+        def none_arm(X, done):
+            inner = self.new_local(body, "std::option::Option<?>")
+            nb = self.new_block(body, [self.st(inner, _agg(OPT, "None", []), span)], None, chain)
+            fin = done(_agg(RES, "Ok", [_mv(inner)]))
+            body["blocks"][nb]["term"] = self.goto(fin, span)
+            return nb
+        self._two_way(body, blk, t, OPT, none_arm, some_arm)
 
     def d_res_map(self, body, blk, t, marks):
         f = self.need_callable(body, t["args"][1], marks)
